@@ -28,6 +28,38 @@ theorem C01_chunking (h : Frame → Bool) (tr : Bool) (chunks : List Bytes) :
   have hc : (chunks.foldl (feed tryFrame) ([], [])).1 = (run tryFrame chunks.flatten).1 := (chunking zbossScanner chunks).1
   rw [hc]
 
+/-- chunk independence **in every link state**: whatever the sequence numbers are and whether or not a sender waits for an
+    acknowledgement, a receiver with an empty buffer hands up the frames of the left-to-right parse of what it is fed -/
+theorem C01_chunking_any_state (h : Frame → Bool) (st : RxState) (hb : st.buf = []) (chunks : List Bytes) :
+    deliveredOf (session h st chunks).2 =
+      deliveredOf ((run tryFrame chunks.flatten).1.flatMap (outsOf st.transport)) := by
+  have hs := session_out h chunks st [] []
+  simp only [List.nil_append, List.length_nil, List.drop_zero] at hs
+  unfold session
+  rw [hs.1, hb]
+  have hc : (chunks.foldl (feed tryFrame) ([], [])).1 = (run tryFrame chunks.flatten).1 := (chunking zbossScanner chunks).1
+  rw [hc]
+
+/-- ... so two receivers in *different* link states, fed the same stream cut in different ways, hand up the same frames
+    (the writes differ only in whether there is a transport to write to) -/
+theorem C01_any_two_states (h1 h2 : Frame → Bool) (s1 s2 : RxState) (hb1 : s1.buf = []) (hb2 : s2.buf = [])
+    (c1 c2 : List Bytes) (hsame : c1.flatten = c2.flatten) :
+    deliveredOf (session h1 s1 c1).2 = deliveredOf (session h2 s2 c2).2 := by
+  rw [C01_chunking_any_state h1 s1 hb1, C01_chunking_any_state h2 s2 hb2, hsame]
+  have key : ∀ (tr : Bool) (fs : List Frame), deliveredOf (fs.flatMap (outsOf tr)) = deliveredOf (fs.flatMap (outsOf true)) := by
+    intro tr fs
+    induction fs with
+    | nil => rfl
+    | cons f fs ih =>
+      simp only [List.flatMap_cons, deliveredOf, List.filterMap_append] at ih ⊢
+      rw [ih]
+      congr 1
+      unfold outsOf
+      split
+      · rfl
+      · cases tr <;> cases f.hl <;> simp
+  rw [key s1.transport, key s2.transport]
+
 /-- two chunkings of the same stream deliver the same frames in the same order -/
 theorem C01_any_two_chunkings (h1 h2 : Frame → Bool) (tr : Bool) (c1 c2 : List Bytes) (hsame : c1.flatten = c2.flatten) :
     deliveredOf (session h1 { transport := tr } c1).2 = deliveredOf (session h2 { transport := tr } c2).2 := by
